@@ -139,7 +139,7 @@ func newModel(b *built, c *Case, si *segInfo) (*model, string) {
 				if a < 0 {
 					m.hasNeg = true
 				}
-				if startLS(g) != 0 {
+				if b.trueStartLS(g) != 0 || b.trueEndLS(g) != 0 {
 					m.hasLS = true
 				}
 			}
@@ -228,7 +228,7 @@ func (m *model) measure(s, e int) (lenient, strict fixed.Int26_6) {
 		if gIsSpace(lastG, vertical) {
 			trail = gAdv(lastG, vertical)
 		} else {
-			trail = endLS(lastG)
+			trail = m.b.trueEndLS(lastG)
 		}
 	}
 	lo, hi := base-trail, base-trail
@@ -256,7 +256,7 @@ func (m *model) measure(s, e int) (lenient, strict fixed.Int26_6) {
 			firstG = m.startG0[s]
 		}
 		if firstG != nil {
-			d := startLS(firstG)
+			d := m.b.trueStartLS(firstG)
 			if firstG == lastG && gIsSpace(lastG, vertical) && lastRun.Direction == m.b.cfg.Direction {
 				d = 0 // the whole glyph is already discounted
 			}
@@ -270,6 +270,45 @@ func (m *model) measure(s, e int) (lenient, strict fixed.Int26_6) {
 	return lo, hi
 }
 
+// measureBeforeTruncator is the largest admissible measure of [s,e) when the truncator follows it:
+// the sum of the advances, minus the white space glyph that logically ends it only if the library is
+// going to trim it (trimming enabled, run of the paragraph direction, positive advance); the end
+// letter spacing counts (it separates the text from the truncator); a negative start letter spacing
+// may have been removed.
+func (m *model) measureBeforeTruncator(s, e int) fixed.Int26_6 {
+	base := m.cum[e] - m.cum[s]
+	lastRun := &m.b.runs[m.runOf[e-1]]
+	vertical := lastRun.Direction.IsVertical()
+	if lastRun.Direction == m.b.cfg.Direction && !m.b.cfg.DisableTrailingWhitespaceTrim {
+		lastG := m.endG1[e]
+		if lastRun.Direction.Progression() == di.TowardTopLeft {
+			lastG = m.endG0[e]
+		}
+		if lastG != nil && gIsSpace(lastG, vertical) && gAdv(lastG, vertical) > 0 {
+			base -= gAdv(lastG, vertical)
+		}
+	}
+	if m.hasLS {
+		firstRun := &m.b.runs[m.runOf[s]]
+		var firstG *shaping.Glyph
+		if firstRun.Direction.Progression() == di.TowardTopLeft {
+			pe := firstRun.Runes.Offset + firstRun.Runes.Count
+			if e < pe {
+				pe = e
+			}
+			firstG = m.endG0[pe]
+		} else {
+			firstG = m.startG0[s]
+		}
+		if firstG != nil {
+			if d := m.b.trueStartLS(firstG); d < 0 {
+				base -= d
+			}
+		}
+	}
+	return base
+}
+
 // slack is the widening applied to the measures of [s,e) when the known finding
 // C02-letterspacing-trim-aliasing is listed: candidate evaluation may have removed the start letter
 // spacing of any glyph the wrapper looked at, so the implementation's own measure can be off by up
@@ -281,7 +320,7 @@ func (m *model) lsSlack(s, e int) fixed.Int26_6 {
 		for gi := range r.Glyphs {
 			g := &r.Glyphs[gi]
 			if g.ClusterIndex >= s && g.ClusterIndex < e {
-				d := startLS(g)
+				d := m.b.trueStartLS(g)
 				if d < 0 {
 					d = -d
 				}
